@@ -48,7 +48,7 @@ class History:
                 op[1] = repr(op[1])
             ops.append(op)
         return {"basis": self.basis, "n_modes": self.n_modes, "ctor_ns": repr(self.ctor_ns), "opt": self.opt,
-                "datasets": [d.tolist() for d in self.datasets], "ops": ops}
+                "datasets": [d.tolist() for d in self.datasets], "dtypes": [str(d.dtype) for d in self.datasets], "ops": ops}
 
 
 def make_optimizer(kind):
@@ -181,7 +181,11 @@ def gen_datasets(rng, same_shape=False, max_ex=7, max_feat=8):
             ne = ne0 if r < 0.3 else rng.randint(2, max_ex)
             nf = nf0 if 0.3 <= r < 0.6 else rng.randint(2, max_feat)
         X = np.array([[rng.randint(-6, 6) for _ in range(nf)] for _ in range(ne)], dtype=float)
-        out.append(X)
+        # storage type of the data set: counts / raw pixels are integers, standardised data are floats with fractions
+        dt = rng.choice(["float64", "float64", "float64", "int64", "int32", "float32"])
+        if dt.startswith("float") and rng.random() < 0.5:
+            X = X + np.array([[rng.randint(-3, 3) / 4 for _ in range(nf)] for _ in range(ne)])
+        out.append(X.astype(dt))
     return out
 
 
@@ -246,4 +250,4 @@ def history_from_desc(d):
         if op[0] in ("set", "upd"):
             op[1] = _ev(op[1])
         ops.append(tuple(op))
-    return History(d["basis"], d["n_modes"], _ev(d["ctor_ns"]), d["opt"], [np.array(x, dtype=float) for x in d["datasets"]], ops)
+    return History(d["basis"], d["n_modes"], _ev(d["ctor_ns"]), d["opt"], [np.array(x, dtype=float).astype(dt) for x, dt in zip(d["datasets"], d.get("dtypes") or ["float64"] * len(d["datasets"]))], ops)
